@@ -71,10 +71,13 @@ func (c *core) getRetryConfig() *RetryConfig {
 // With a jar every hop is a request of its own: the cookies of an answer are stored for the host that sent it, and the
 // next hop carries the jar's cookies for ITS url (plus the cookies configured on client and request) - never those
 // that were looked up for the previous host.
-func (c *core) doRedirects(req *fasthttp.Request, resp *fasthttp.Response) error {
+//
+// maxRedirects and cookies (key, value pairs configured on client and request) are passed in: the loop runs in the
+// request goroutine, which may outlive a timed out call whose caller has already released the Request.
+func (c *core) doRedirects(req *fasthttp.Request, resp *fasthttp.Response, maxRedirects int, cookies []string) error {
 	jar := c.client.cookieJar
 	if jar == nil {
-		return c.client.fasthttp.DoRedirects(req, resp, c.req.maxRedirects)
+		return c.client.fasthttp.DoRedirects(req, resp, maxRedirects)
 	}
 
 	for redirects := 0; ; redirects++ {
@@ -86,7 +89,7 @@ func (c *core) doRedirects(req *fasthttp.Request, resp *fasthttp.Response) error
 		if !fasthttp.StatusCodeIsRedirect(resp.StatusCode()) {
 			return nil
 		}
-		if redirects >= c.req.maxRedirects {
+		if redirects >= maxRedirects {
 			return fasthttp.ErrTooManyRedirects
 		}
 		location := resp.Header.Peek(fiber.HeaderLocation)
@@ -102,15 +105,24 @@ func (c *core) doRedirects(req *fasthttp.Request, resp *fasthttp.Response) error
 
 		req.Header.DelAllCookies()
 		jar.dumpCookiesToReq(req)
-		c.client.mu.RLock()
-		c.client.cookies.VisitAll(func(key, val string) {
-			req.Header.SetCookie(key, val)
-		})
-		c.client.mu.RUnlock()
-		c.req.cookies.VisitAll(func(key, val string) {
-			req.Header.SetCookie(key, val)
-		})
+		for i := 0; i+1 < len(cookies); i += 2 {
+			req.Header.SetCookie(cookies[i], cookies[i+1])
+		}
 	}
+}
+
+// configuredCookies returns the cookies set on the client and on the request as key, value pairs
+func (c *core) configuredCookies() []string {
+	var cookies []string
+	c.client.mu.RLock()
+	c.client.cookies.VisitAll(func(key, val string) {
+		cookies = append(cookies, key, val)
+	})
+	c.client.mu.RUnlock()
+	c.req.cookies.VisitAll(func(key, val string) {
+		cookies = append(cookies, key, val)
+	})
+	return cookies
 }
 
 // execFunc is the core logic to send the request and receive the response.
@@ -127,6 +139,14 @@ func (c *core) execFunc() (*Response, error) {
 	c.req.RawRequest.CopyTo(reqv)
 	cfg := c.getRetryConfig()
 
+	// everything the request goroutine needs of the Request is taken now
+	followRedirects := c.req.maxRedirects > 0 && (c.req.Method() == fiber.MethodGet || c.req.Method() == fiber.MethodHead)
+	maxRedirects := c.req.maxRedirects
+	var hopCookies []string
+	if followRedirects && c.client.cookieJar != nil {
+		hopCookies = c.configuredCookies()
+	}
+
 	var err error
 	go func() {
 		respv := fasthttp.AcquireResponse()
@@ -138,14 +158,14 @@ func (c *core) execFunc() (*Response, error) {
 		if cfg != nil {
 			// Use an exponential backoff retry strategy.
 			err = retry.NewExponentialBackoff(*cfg).Retry(func() error {
-				if c.req.maxRedirects > 0 && (string(reqv.Header.Method()) == fiber.MethodGet || string(reqv.Header.Method()) == fiber.MethodHead) {
-					return c.doRedirects(reqv, respv)
+				if followRedirects {
+					return c.doRedirects(reqv, respv, maxRedirects, hopCookies)
 				}
 				return c.client.fasthttp.Do(reqv, respv)
 			})
 		} else {
-			if c.req.maxRedirects > 0 && (string(reqv.Header.Method()) == fiber.MethodGet || string(reqv.Header.Method()) == fiber.MethodHead) {
-				err = c.doRedirects(reqv, respv)
+			if followRedirects {
+				err = c.doRedirects(reqv, respv, maxRedirects, hopCookies)
 			} else {
 				err = c.client.fasthttp.Do(reqv, respv)
 			}
@@ -157,8 +177,7 @@ func (c *core) execFunc() (*Response, error) {
 				return
 			}
 			// the redirect loop has filed the cookies of every answer under the host that sent it
-			resp.cookiesInJar = c.client.cookieJar != nil && c.req.maxRedirects > 0 &&
-				(string(reqv.Header.Method()) == fiber.MethodGet || string(reqv.Header.Method()) == fiber.MethodHead)
+			resp.cookiesInJar = followRedirects && c.client.cookieJar != nil
 			respv.CopyTo(resp.RawResponse)
 			errCh <- nil
 		}
